@@ -429,18 +429,87 @@ const preludeText = `
 (declare-fun gs.fromRune ((_ BitVec 32)) Str)
 `
 
-// Prelude emits the fixed prelude plus discovered datatypes.
-func (w *World) Prelude() string {
+// smtTokens splits SMT-LIB text into its symbol tokens.
+func smtTokens(text string, into map[string]bool) {
+	start := -1
+	for i := 0; i <= len(text); i++ {
+		var c byte = ' '
+		if i < len(text) {
+			c = text[i]
+		}
+		if c == '(' || c == ')' || c == ' ' || c == '\n' || c == '\t' {
+			if start >= 0 {
+				into[text[start:i]] = true
+				start = -1
+			}
+		} else if start < 0 {
+			start = i
+		}
+	}
+}
+
+// declSymbols: the sort, constructor and selector names a declaration introduces.
+func declSymbols(text string) []string {
+	toks := map[string]bool{}
+	smtTokens(text, toks)
+	var out []string
+	for t := range toks {
+		switch t {
+		case "declare-datatypes", "declare-sort", "declare-fun", "Array", "Int", "Bool", "0", "Str", "F64", "Val", "Node", "Err", "_", "BitVec", "8", "16", "32", "64":
+			continue
+		}
+		out = append(out, t)
+	}
+	return out
+}
+
+// Prelude emits the fixed prelude plus the datatypes and string literals the body text uses.
+func (w *World) Prelude(body string, usedLits map[string]bool) string {
 	var sb strings.Builder
 	sb.WriteString(preludeText)
+	used := map[string]bool{}
+	smtTokens(body, used)
+	need := map[string]bool{}
+	defines := map[string][]string{}
 	for _, n := range w.declOrder {
-		sb.WriteString(w.decls[n])
-		sb.WriteByte('\n')
+		defines[n] = declSymbols(w.decls[n])
+	}
+	changed := true
+	for changed {
+		changed = false
+		for _, n := range w.declOrder {
+			if need[n] {
+				continue
+			}
+			hit := false
+			for _, sym := range defines[n] {
+				// a declaration is needed if something it defines is used (sort names are
+				// defined by exactly one declaration: the one whose name it is)
+				if used[sym] && (sym == n || !isSortName(w, sym)) {
+					hit = true
+					break
+				}
+			}
+			if hit {
+				need[n] = true
+				smtTokens(w.decls[n], used)
+				changed = true
+			}
+		}
+	}
+	for _, n := range w.declOrder {
+		if need[n] {
+			sb.WriteString(w.decls[n])
+			sb.WriteByte('\n')
+		}
 	}
 	// string literals: distinct constants with known lengths
 	if len(w.strOrder) > 0 {
 		for _, s := range w.strOrder {
 			t := w.strLits[s]
+			if !usedLits[t.Head] {
+				continue
+			}
 			fmt.Fprintf(&sb, "; string literal %s = %q\n", t.Head, s)
 			fmt.Fprintf(&sb, "(assert (= (gs.len %s) %d))\n", t.Head, len(s))
 			if len(s) <= 4 {
@@ -452,4 +521,9 @@ func (w *World) Prelude() string {
 		}
 	}
 	return sb.String()
+}
+
+func isSortName(w *World, sym string) bool {
+	_, ok := w.decls[sym]
+	return ok
 }
